@@ -47,6 +47,14 @@ func (il *inputFieldList) add(fds ...*InputField) error {
 	return nil
 }
 
+// truncate removes all but the first n fields.
+func (il *inputFieldList) truncate(n int) {
+	for _, fd := range il.list[n:] {
+		delete(il.dict, fd.Name())
+	}
+	il.list = il.list[:n]
+}
+
 func (il *inputFieldList) get(name string) (i *InputField) {
 	if il.dict != nil {
 		i = il.dict[name]
